@@ -7,7 +7,8 @@ obligation on the next run, independently of the correspondence streams.
 Extracted (by name, wherever the assignment sits):
   tools._ascii_n/_ascii_an/_ascii_pa/_ascii_h            frozenset(<string expr>)       -> sorted code points
   tr31 class-level {str: int} dict literals               Header / KeyBlock tables        -> [(key code points, value)]
-  tr31 KeyBlock._wrap_dispatch/_unwrap_dispatch           {str: <method name>}            -> [(key code points, "name")]
+  tr31 KeyBlock._wrap_dispatch/_unwrap_dispatch           {str: <method name>}            -> [(key code points, class number)]: which
+                                                          versions share a routine (method names are incidental and not emitted)
   cvv.generate_cvv / pin.generate_visa_pvv                dict literal passed to .translate -> [(int, int)]
   pin.*                                                   first argument of str.maketrans  -> code points
 Names are matched ignoring leading underscores and letter case, at class level or module level. A table whose source has a
@@ -83,7 +84,13 @@ def str_name_dict(node):
         if k is None or not isinstance(v, ast.Name):
             raise TableError("dispatch entry is not a plain method name")
         out.append((cps(const_str(k)), v.id))
-    return dedupe(out)
+    # method names are incidental (a rename is harmless): keep only which keys share a routine - class numbers in order of first
+    # appearance when the keys are sorted
+    out = sorted(dedupe(out))
+    classes = {}
+    for _, name in out:
+        classes.setdefault(name, len(classes))
+    return [(k, classes[name]) for k, name in out]
 
 
 def int_int_dict(node):
@@ -224,7 +231,7 @@ def emit(t, path):
     for name in ("header_mac_len", "header_block_size", "keyblock_mac_len", "keyblock_block_size", "keyblock_algo_max_key_len"):
         L.append(f"def {name} : " + opt("List (List Nat × Nat)", None if t[name] is None else "[" + ", ".join(f"({lean_nats(k)}, {v})" for k, v in t[name]) + "]"))
     for name in ("wrap_dispatch", "unwrap_dispatch"):
-        L.append(f"def {name} : " + opt("List (List Nat × String)", None if t[name] is None else "[" + ", ".join(f'({lean_nats(k)}, "{v}")' for k, v in t[name]) + "]"))
+        L.append(f"def {name} : " + opt("List (List Nat × Nat)", None if t[name] is None else "[" + ", ".join(f"({lean_nats(k)}, {v})" for k, v in t[name]) + "]"))
     for name in ("cvv_translate", "pvv_translate"):
         L.append(f"def {name} : " + opt("List (Nat × Nat)", None if t[name] is None else "[" + ", ".join(f"({k}, {v})" for k, v in t[name]) + "]"))
     L.append("def ibm_maketrans_from : " + opt("List (List Nat)", None if t["ibm_maketrans_from"] is None else "[" + ", ".join(lean_nats(x) for x in t["ibm_maketrans_from"]) + "]"))
